@@ -10,12 +10,22 @@ LEVEL_TEXT = ("Coq theorems over the session model and the extension layer model
               "inbound message is delivered to exactly the hook's mailboxes/sender/recipients/subject (replacement_exact, "
               "replacement_mailboxes), a handler that raises or returns the wrong kind of value has not answered and the session is then the "
               "policy-only session of C01 (erroring_*_is_silent, silent_hooks_deliver_as_policy), and no pooled Lua state is ever held by two "
-              "callers under any interleaving of get/put (pool_exclusive); tied to the code by generated Lua scripts whose outcome class is "
+              "callers under any interleaving of get/put (pool_exclusive); composed (Proofs/HooksCompose.v): with any chain of listeners on a broker - the Lua host among "
+              "them - the first listener that answers decides the session's reply code for code (first_deny_decides_mail/rcpt, first_allow_decides_rcpt), an explicit "
+              "defer is an answer that ends the chain and hands the decision to the policy (explicit_defer_ends_the_chain), a Lua handler that raised or returned "
+              "anything but a response is a listener that is not there (broken_lua_handler_is_absent), and the first listener returning a message decides what is "
+              "stored (first_replacement_decides); tied to the code by generated Lua scripts whose outcome class is "
               "known by construction, installed with the real luahost and run against real SMTP sessions sequentially and from up to 8 "
-              "concurrent sessions. *Partial*: gopher-lua and the script=>outcome mapping are tested, not proved")
+              "concurrent sessions. *Partial*: gopher-lua and the script=>outcome mapping are tested, not proved; several theorems (deny_literal_rcpt, erroring_*_is_silent, "
+              "replacement_*, defer_is_policy) unfold three-line definitions: that the handlers map a Lua outcome to an answer THIS way is the model's transcription "
+              "of lua.go, validated by the correspondence run; the deny TEXT is not in the model (a reply line is code x continuation flag): that the client receives "
+              "the hook's text is checked by the differential run on the raw reply lines only (verdict deny-text-differs-from-hook-answer)")
 LEVEL_NOTE = ("Coq kernel; extraction; the Lua interpreter (gopher-lua) is third-party: the mapping from a script to its outcome class is by "
               "construction of the generator and validated by running it; oracles as in C01 (net.ParseIP, enmime header decoding); data races between concurrent handler "
-              "calls are outside a Gallina model (the concurrent stream compares per-session replies and the store multiset)")
+              "calls are outside a Gallina model (the concurrent stream compares per-session replies and the store multiset); listeners are pure functions in the model: "
+              "in the code they receive pointers - that a listener's scribbling on what it was handed leaves no trace for the session or for later listeners holds since "
+              "fixes 0021 / 0023 (copies per handler) and is checked by tampering handlers followed by a second Go listener on all three brokers; a handler returning "
+              "inbound_message.new() (nil sender, no recipients) is generated and judged by the differential run, the model's overrides cannot express a nil sender")
 DESIGN_REF = "DESIGN.md §4 C17"
 RULE = ("scripts generated from rule tables over the addresses and subjects of the dialogue: any subset of the five handlers, each rule "
         "realised as allow / deny(code,msg|defaults) / defer / no answer (nil, false, number, string, table, wrong userdata, runtime error, "
@@ -24,7 +34,8 @@ RULE = ("scripts generated from rule tables over the addresses and subjects of t
 TRUSTED = ["gopher-lua executes the generated script as the generator intends (outcome class by construction)",
            "net.ParseIP verdicts and enmime header facts are oracles supplied by the driver from the real functions"]
 ASSUMPTIONS = ["hooks do not answer Deny with the codes 250 or 354 (a hook lying about acceptance is outside the property)"]
-NOT_PROVED = []
+NOT_PROVED = ["the deny text reaches the client verbatim (differential only: reply lines are code x flag in the model)",
+              "listener purity: a listener's writes to its argument are invisible to the session and to later listeners (differential only, fixes 0021/0023)"]
 
 
 def project(kind, ins, outs):
